@@ -99,13 +99,18 @@ func (r *returnsRunner) execute(cmd *cobra.Command, args []string) error {
 		AccountFilter:   predicate.ByName[*model.Account](r.accounts.Regex()),
 		CommodityFilter: predicate.ByName[*model.Commodity](r.commodities.Regex()),
 	}
+	// Perf registers the period end dates with the builder. It must be
+	// created before the journal is built: Build only sees the days which
+	// exist when it is called, and a period which ends on a day without
+	// directives would otherwise never be reported.
+	perf := performance.Perf(j, partition)
 	err = j.Build().Process(
 		journal.ComputePrices(valuation),
 		check.Check(),
 		journal.Valuate(reg, valuation),
 		calculator.ComputeValues(),
 		calculator.ComputeFlows(),
-		performance.Perf(j, partition),
+		perf,
 	)
 	return err
 }
